@@ -259,6 +259,12 @@ func VP_C05_Cli() {
 	vpInitRepo()
 	w := zzvp.Root()
 	files := vpWorkFiles(1+zzvp.Choose(zzvp.Param("files", 2)), zzvp.Param("depth", 2), zzvp.Param("complen", 2), 1)
+	if zzvp.Choose(2) == 1 {
+		// a concrete exemplar of non-ASCII names (symbolic non-ASCII bytes are outside the claim)
+		nf := vpFile{"d\xc3\xa9j\xc3\xa0/\xe6\x97\xa5\xe6\x9c\xac.txt", []byte("n")}
+		zzvp.WriteFile(w+"/"+nf.path, nf.content)
+		files = append(files, nf)
+	}
 	for _, f := range files {
 		vpOK(zzvp.Run("add", f.path))
 	}
